@@ -174,7 +174,31 @@ impl<'tcx> Ex<'tcx> {
                     obj(vec![("k", js("Path")), ("res", self.qpath(qp, pe.hir_id))])
                 }
             },
-            Range(..) => obj(vec![("k", js("Range"))]),
+            Range(lo, hi, end) => {
+                let mut pe = |x: Option<&hir::PatExpr<'tcx>>, this: &mut Self| -> String {
+                    match x {
+                        None => "null".to_string(),
+                        Some(pe) => match pe.kind {
+                            hir::PatExprKind::Lit { lit, negated } => obj(vec![
+                                ("k", js("Lit")),
+                                ("v", js(&format!("{:?}", lit.node))),
+                                ("neg", negated.to_string()),
+                            ]),
+                            hir::PatExprKind::Path(ref qp) => {
+                                obj(vec![("k", js("Path")), ("res", this.qpath(qp, pe.hir_id))])
+                            }
+                        },
+                    }
+                };
+                let l = pe(lo, self);
+                let h = pe(hi, self);
+                obj(vec![
+                    ("k", js("Range")),
+                    ("lo", l),
+                    ("hi", h),
+                    ("incl", matches!(end, hir::RangeEnd::Included).to_string()),
+                ])
+            }
             Slice(a, m, b) => obj(vec![
                 ("k", js("Slice")),
                 ("pre", arr(a.iter().map(|x| self.pat(x)).collect())),
